@@ -7,6 +7,8 @@ import (
 	"fmt"
 	"image"
 	"image/color"
+	"strconv"
+	"strings"
 )
 
 type rng struct{ s uint64 }
@@ -49,6 +51,11 @@ var palette = func() []color.NRGBA {
 }()
 
 func ncolors(content string) int {
+	if strings.HasPrefix(content, "k") { // "k<N>": exactly N colours, every one of them present
+		if n, err := strconv.Atoi(content[1:]); err == nil && n >= 1 && n <= len(palette) {
+			return n
+		}
+	}
 	switch content {
 	case "flat":
 		return 1
@@ -81,7 +88,14 @@ func Make(w, h int, content, alpha string, seed int64) *image.NRGBA {
 			switch {
 			case nc > 0:
 				var k int
-				if nc <= 5 {
+				if strings.HasPrefix(content, "k") {
+					// the first N pixels show the N colours once, the rest is noise over them
+					if i := y*w + x; i < nc {
+						k = i
+					} else {
+						k = r.n(nc)
+					}
+				} else if nc <= 5 {
 					// checker / stripes mixed with scattered pixels
 					k = (x + 2*y) % nc
 					if r.n(5) == 0 {
@@ -127,6 +141,17 @@ func Make(w, h int, content, alpha string, seed int64) *image.NRGBA {
 					r.n(2)
 					c = color.NRGBA{uint8(40 + 20*(hsh%7)), uint8(90 + 9*(hsh%11)), 120, 255}
 				}
+			case content == "oneflat":
+				// one regular fine texture everywhere except one flat 16x16 block: every
+				// macroblock but one has the same complexity (skewed segment populations)
+				v := uint8(98 + 60*(((x/2)+(y/2))%2))
+				if (x*7+y*13)%5 == 0 {
+					v += 20
+				}
+				if x/16 == 10 && y/16 == 10 {
+					v = 128
+				}
+				c = color.NRGBA{v, v, v, 255}
 			case content == "gradient":
 				c = color.NRGBA{uint8(x * 255 / max1(w-1)), uint8(y * 255 / max1(h-1)), uint8((x + y) * 255 / max1(w+h-2)), 255}
 			case content == "many":
@@ -158,6 +183,16 @@ func Make(w, h int, content, alpha string, seed int64) *image.NRGBA {
 				}
 			case "semi": // never 0, never 255
 				c.A = uint8(1 + r.n(254))
+			default:
+				if strings.HasPrefix(alpha, "lv") { // "lv<N>": exactly N alpha levels 255, 254, ..., all present
+					if n, err := strconv.Atoi(alpha[2:]); err == nil && n >= 1 && n <= 256 {
+						if i := y*w + x; i < n {
+							c.A = uint8(255 - i)
+						} else {
+							c.A = uint8(255 - r.n(n))
+						}
+					}
+				}
 			}
 			img.SetNRGBA(x, y, c)
 		}
